@@ -1163,7 +1163,15 @@ func evalExpression(exprSrc string, rootValue interface{}, stdout io.Writer) (*C
 	if err != nil {
 		return nil, ev.straySignalError(err, expr.Token())
 	}
-	return cell, nil
+
+	// the result is a value, exactly as if it had been assigned: -r E is
+	// documented as BEGINFILE { $ = E }. without this a missing member comes
+	// back as an assignable placeholder inside the discarded document
+	result, err := copyValue(cell, &Cell{})
+	if err != nil {
+		return nil, ev.error(expr.Token(), err.Error())
+	}
+	return result, nil
 }
 
 type InputFile struct {
